@@ -27,6 +27,8 @@ def g_bstep(s, table):
         return "BRec"
     if k == 'parent':
         return "BParent"
+    if k == 'bad':
+        return "BBadIdx"
     if k == 'pred':
         hu = g_pred(s[2], table)               # (HUser tag f)
         inner = hu[len("(HUser "):-1]
@@ -51,7 +53,10 @@ def g_bcase(case):
 
 
 def gen_bstep(rng, doc_keys):
-    k = rng.choice(['attr', 'attr', 'item', 'item', 'idx', 'slice', 'tuple', 'wc', 'lwc', 'gwc', 'rec', 'parent', 'pred'])
+    k = rng.choice(['attr', 'attr', 'item', 'item', 'idx', 'slice', 'tuple', 'wc', 'lwc', 'gwc', 'rec', 'parent', 'pred', 'bad'])
+    if k == 'bad':
+        # unsupported index types and the reserved attribute name: PathSyntaxError when the step is built (C16)
+        return rng.choice([('bad', 'float'), ('bad', 'none'), ('bad', 'dict'), ('bad', 'list'), ('attr', 'shape')])
     if k == 'attr':
         return ('attr', rng.choice(RAW))
     if k == 'item':
